@@ -25,8 +25,8 @@ fn entry_name(e: Entry) -> String {
 
 fn entries_for(v: Pv) -> Vec<Entry> {
     match v {
-        Pv::P2 => vec![Entry::Item, Entry::Wset, Entry::HashMapStd],
-        Pv::P3 => vec![Entry::Item, Entry::Wset, Entry::IdxMap, Entry::HashMapStd],
+        Pv::P2 => vec![Entry::Item, Entry::Wset, Entry::HashMapStd, Entry::Batches(3)],
+        Pv::P3 => vec![Entry::Item, Entry::Wset, Entry::IdxMap, Entry::HashMapStd, Entry::Batches(4)],
         Pv::P3a | Pv::P3aSha => vec![Entry::IdxMap, Entry::HashMapStd, Entry::Batches(3)],
     }
 }
